@@ -1,5 +1,6 @@
 import PlasVerif.Driver.Util
 import PlasVerif.Spec.Crossref
+import PlasVerif.Model.ParseEvents
 namespace PlasVerif.Driver.C09
 open PlasVerif.Driver PlasVerif.Model.Labels PlasVerif.Spec.Crossref
 
@@ -113,7 +114,38 @@ def specStrX (job : Nat) (files : List PauxFile) (h : List Op) : String :=
     s!"I {joinSp i} | W {joinSp w} | D {joinSp d}"
   else "-"
 
+/- `parse9 B <op>* ; M <node> <counter 0|1|2> <num> <level 0|1> ; (A <modifier 0|1> <given 0|1> <op>* ;)* E <op>*` :
+   events before the call, the call (`Macro.parse` of a macro with that signature), events after it -/
+open PlasVerif.Model.ParseEvents in
+def call? : List (List String) → Option (List Op × MacroCall × List Op)
+  | ("B" :: b) :: ["M", n, c, v, lvl] :: rest => do
+    let before ← b.mapM op?
+    let ctr ← (match c with | "0" => some Ctr.none | "1" => some Ctr.empty | "2" => some Ctr.named | _ => none)
+    let rec args : List (List String) → Option (List Arg × List Op)
+      | ("A" :: md :: g :: ws) :: more => do
+        let ops ← ws.mapM op?
+        let (as, e) ← args more
+        pure (⟨md == "1", g == "1", ops⟩ :: as, e)
+      | [("E" :: e)] => do pure ([], ← e.mapM op?)
+      | _ => none
+    let (as, after) ← args rest
+    pure (before, ⟨← n.toNat?, ctr, ← v.toNat?, lvl == "1", as⟩, after)
+  | _ => none
+
+def opStr : Op → String
+  | .numbered n => s!"N{n}"
+  | .number n v => s!"V{n}:{v}"
+  | .label l none => s!"L{l}"
+  | .label l (some n) => s!"L{l}@{n}"
+  | .ref r sl l => s!"R{r}.{sl}:{l}"
+
 def handle : List String → String
+  | "parse9" :: ws =>
+    match call? (splitAll ";" ws) with
+    | some (before, m, after) =>
+      let h := before ++ PlasVerif.Model.ParseEvents.parse m ++ after
+      s!"{stateStr h (run h)}\t{specStr h}\t{joinSp (h.map opStr)}"
+    | none => "bad-op"
   | "rerun9" :: j :: ws =>
     match (if j.startsWith "J" then (tail1 j).toNat? else none), files? ws [] with
     | some job, some (files, rest) =>
